@@ -1561,7 +1561,7 @@ func (e *Engine) summaries(callee *ssa.Function, st *State, args []AbsVal) []sum
 		if len(x.ret) == 1 && x.at != nil && x.st.errSet != 1 && !x.st.havoc {
 			if c, ok := x.ret[0].constInt(); ok && c == 0 && isFailureResult(callee) && callee.Synthetic == "" {
 				key := fnLabel(callee) + " failure restores the position"
-				if _, exc := restoreExceptions[fnLabel(callee)]; !exc {
+				if _, exc := restoreExceptions[fnLabel(callee)]; !exc && !e.failurePropagated(callee) {
 					e.check(x.st, "R-RESTORE", key, x.at.Pos(), x.st.dispLo == 0 && x.st.dispHi == 0,
 						fmt.Sprintf("the scanner returns its failure value after a net cursor displacement in [%s,%s]: the bytes moved over end up in the next token (or are rescanned) although the caller was told nothing was consumed", infs(x.st.dispLo), infs(x.st.dispHi)))
 				}
